@@ -3,4 +3,6 @@ From Coq Require Extraction.
 From Coq Require Import ExtrOcamlBasic.
 From MPC Require Import Num Species GenSpecies GenTransport Transport.
 Extraction "kernels_tr.ml" mkNum mkUnits mkSpecies mkQints qentry qhatentry
-  Dij_rhs Dij_value DTi_rhs1 DTi_value visc_rhs0 visc_value kdash_value sigma_value.
+  Dij_rhs Dij_value DTi_rhs1 DTi_value visc_rhs0 visc_value kdash_value sigma_value
+  hv_rescaled dxdT_value kappa_total
+  Qij Qij_class Qe Qnn Qin Qtr Qc cl_charged.
